@@ -14,6 +14,9 @@ from .arr import Arr, ArrBase, View, Masked, NP, Opaque, to_arr
 REPO = os.environ.get('KVC_REPO', '/repo')
 
 
+_AST_CACHE = {}
+
+
 class SchemaGap(Unsupported):
     pass
 
@@ -380,7 +383,11 @@ class Interp(object):
         src = open(os.path.join(self.repo, rel)).read()
         m.sha = hashlib.sha256(src.encode()).hexdigest()
         self.files[rel] = m.sha
-        tree = ast.parse(src, rel)
+        ck = (os.path.join(self.repo, rel), m.sha)
+        tree = _AST_CACHE.get(ck)
+        if tree is None:
+            tree = ast.parse(src, rel)
+            _AST_CACHE[ck] = tree
         m.tree = tree
         m.env['__name__'] = dotted
         self.exec_block(tree.body, m.env, m, None)
